@@ -382,6 +382,11 @@ def job_read_from(jc):
 
 def jobs(tier):
     js = [Job("png_read_from[histories]", job_read_from)]
+    from harness import C17
+
+    for fmt in ("cbdt", "sbix"):
+        for n in (2, 3):
+            js.append(Job(f"inputs[{fmt},n={n}]", C17.job_inputs, fmt=fmt, n=n))  # every glyph gets the PNG of its own row
     metric_sets = [(1024, 1200), (1000, 1000), (2048, 2400), (1024, 1024)]
     hs = [16, 64, 106, 127, 128, 136, 255] if tier == "quick" else list(range(8, 256, 1))
     for upem, F in metric_sets:
